@@ -204,6 +204,24 @@ func Gen(src *choice.Source, dim int) *Shape {
 	return s
 }
 
+// Flatten turns the shape into a plate: every primitive becomes its bounding box and
+// the given axis is squeezed around the shape's centre until the whole shape is
+// thickness thick there (volumes with very few lattice layers along one axis).
+func (s *Shape) Flatten(axis int, thickness float64) {
+	lo, hi := s.Bounds()
+	c := (lo[axis] + hi[axis]) / 2
+	f := thickness / (hi[axis] - lo[axis])
+	for i := range s.Prims {
+		p := &s.Prims[i]
+		if p.Ball {
+			p.Min, p.Max = p.bounds(s.Dim)
+			p.Ball = false
+		}
+		p.Min[axis] = c + (p.Min[axis]-c)*f
+		p.Max[axis] = c + (p.Max[axis]-c)*f
+	}
+}
+
 // GenDyadic2 draws a 2-D shape of closed and open boxes whose faces lie on
 // multiples of 1/8, so that with a power-of-two raster scale and a dyadic canvas
 // pixel edges, filter-tile edges and the solid's own faces coincide exactly in
